@@ -161,9 +161,16 @@ def run(repo, res):
         if isinstance(tr, ast.Try):
             for n in ast.walk(ast.Module(body=tr.body, type_ignores=[])):
                 if isinstance(n, ast.Subscript):
-                    txt = ex.text(n)
-                    detail = txt
-                    ok = ('.flow.names_at(np(' in txt or '.flow.names_at((' in txt) and '.id]' in txt
+                    txts = ex.all_texts(n)
+                    detail = ' | '.join(txts)
+                    ok = all(('.flow.names_at(np(' in txt or '.flow.names_at((' in txt) and '.id]' in txt
+                             and not txt.startswith(('visible', 'cache')) for txt in txts)
+                    # the table must be computed for this read's own position: no reuse through a keyed cache
+                    for txt in txts:
+                        m_ = ast.parse(txt, mode='eval').body
+                        if not (isinstance(m_, ast.Subscript) and isinstance(m_.value, ast.Call)
+                                and unparse(m_.value.func).endswith('.flow.names_at')):
+                            ok = False
     res.check('C01-R6', 'lint lookup table', ok, LINTER, lint.lineno,
               "the table lint consults must be names_at(np(read)) of the read's own region; found %s" % detail,
               sample='lint: %s' % detail[:90])
